@@ -355,6 +355,281 @@ theorem failed_step_invisible_in_history (db : Db) (before : List FOp) (op : FOp
   rw [run_append_single]
   exact failed_step_invisible (run_inv before (inv_empty db)) op later
 
+/-! ### ordering of arbitrary (simple or derived) quantities -/
+
+/-- **ordering two values whose quantity types differ raises TypeError, for all four operators, whatever
+their unit strings are** — in particular when the unit STRINGS coincide (the square of a velocity in
+`m/s` is written `m/s2`, the acceleration unit): the same-unit-string shortcut of the conversion is
+never reached -/
+theorem orderQ_cross_type_error (db : Db) (op : CmpOp) {a b : Quant} (x y : Rat)
+    (ht : a.qtype ≠ b.qtype) : orderQ db op a b x y = .error .type := by
+  unfold orderQ
+  have : (a.qtype != b.qtype) = true := by simpa using ht
+  simp [this]
+
+/-- an ordering that answers has compared two values of ONE quantity type -/
+theorem orderQ_ok_same_type (db : Db) (op : CmpOp) {a b : Quant} (x y : Rat) {r : Bool}
+    (h : orderQ db op a b x y = .ok r) : a.qtype = b.qtype := by
+  by_cases ht : a.qtype = b.qtype
+  · exact ht
+  · rw [orderQ_cross_type_error db op x y ht] at h; cases h
+
+/-- the same inside a session, at any point of any history: once both operands are obtained, an ordering
+step across quantity types answers TypeError -/
+theorem cmpq_cross_type_error (st : XState) (op : CmpOp) (ea eb : List Ent) (x y : Rat) {a b : Quant}
+    (ha : (obtainDict st ea).2 = .ok a) (hb : (obtainDict (obtainDict st ea).1 eb).2 = .ok b)
+    (ht : a.qtype ≠ b.qtype) : (xstep st (.cmpq op ea eb x y)).2 = .error .type := by
+  simp only [xstep]
+  cases h1 : obtainDict st ea with
+  | mk st1 r1 =>
+    rw [h1] at ha hb
+    simp only at ha hb
+    subst ha
+    simp only
+    cases h2 : obtainDict st1 eb with
+    | mk st2 r2 =>
+      rw [h2] at hb
+      simp only at hb
+      subst hb
+      simp only [orderQ_cross_type_error st2.db op x y ht, exMap]
+
+/-! ### the extended session: registrations in the middle of a history -/
+
+/-- the operations whose answer the theorems below speak about: all of them, except `ObtainQuantity(unit)`
+for a unit string that a SECOND legacy fixing would change again (see `LegacyStable`) -/
+def XOp.Tame (L : List (Sym × Sym)) : XOp → Prop
+  | .createU u => LegacyStable L u
+  | _ => True
+
+/-- the registry after a step: only a successful registration changes it -/
+def nextDb (db : Db) : XOp → Db
+  | .reg r => match applyReg db r with
+    | .ok db' => db'
+    | .error _ => db
+  | _ => db
+
+theorem xstep_db (st : XState) (op : XOp) : (xstep st op).1.db = nextDb st.db op := by
+  cases op with
+  | plain op => rfl
+  | createU u => exact obtainU_db st u
+  | createDict v es =>
+    simp only [xstep, nextDb]
+    split
+    · exact createDerived_db st es
+    · exact obtainDict_db st es
+  | cmpq op ea eb x y =>
+    simp only [xstep, nextDb]
+    have h1 := obtainDict_db st ea
+    cases ho : obtainDict st ea with
+    | mk st1 r1 =>
+      rw [ho] at h1
+      cases r1 with
+      | error e => exact h1
+      | ok a =>
+        simp only
+        have h2 := obtainDict_db st1 eb
+        cases ho2 : obtainDict st1 eb with
+        | mk st2 r2 =>
+          rw [ho2] at h2
+          cases r2 <;> (simp only; rw [h2]; exact h1)
+  | reg r =>
+    simp only [xstep, nextDb]
+    cases applyReg st.db r <;> rfl
+
+theorem nextDb_legacy (db : Db) (op : XOp) : (nextDb db op).legacy = db.legacy := by
+  cases op with
+  | reg r =>
+    simp only [nextDb]
+    cases h : applyReg db r with
+    | ok db' => exact applyReg_legacy h
+    | error e => rfl
+  | _ => rfl
+
+/-- the invariant holds in every reachable state of the extended session -/
+theorem xstep_inv {st : XState} (h : XInv st) (op : XOp) : XInv (xstep st op).1 := by
+  cases op with
+  | plain op => exact ⟨step_inv h.base op, h.alias, h.dcache⟩
+  | createU u => exact obtainU_inv h u
+  | createDict v es =>
+    simp only [xstep]
+    split
+    · exact createDerived_inv h es
+    · exact obtainDict_inv h es
+  | cmpq op ea eb x y =>
+    simp only [xstep]
+    have h1 := obtainDict_inv h ea
+    cases ho : obtainDict st ea with
+    | mk st1 r1 =>
+      rw [ho] at h1
+      cases r1 with
+      | error e => exact h1
+      | ok a =>
+        simp only
+        have h2 := obtainDict_inv h1 eb
+        cases ho2 : obtainDict st1 eb with
+        | mk st2 r2 =>
+          rw [ho2] at h2
+          cases r2 <;> exact h2
+  | reg r =>
+    simp only [xstep]
+    cases applyReg st.db r with
+    | ok db' => exact xinv_fresh db'
+    | error e => exact h
+
+theorem xrun_inv (ops : List XOp) {st : XState} (h : XInv st) : XInv (xrun st ops) := by
+  induction ops generalizing st with
+  | nil => exact h
+  | cons op ops ih => exact ih (xstep_inv h op)
+
+/-- the answer of a step as a function of the registry alone -/
+def xanswer (db : Db) : XOp → Except ErrKind XOut
+  | .plain op => exMap XOut.plain (step db FState.empty op).2
+  | .createU u => exMap (fun q => XOut.plain (.quantity q)) (obtainUPure db u)
+  | .createDict v es => exMap XOut.quant (if v then createDerivedPure db es else obtainDictPure db es)
+  | .cmpq op ea eb x y =>
+    match obtainDictPure db ea with
+    | .error e => .error e
+    | .ok a =>
+      match obtainDictPure db eb with
+      | .error e => .error e
+      | .ok b => exMap (fun r => XOut.plain (.bool r)) (orderQ db op a b x y)
+  | .reg r =>
+    match applyReg db r with
+    | .ok _ => .ok (.plain .unit)
+    | .error e => .error e
+
+/-- **in any reachable state every operation answers as a function of the current registry alone** -/
+theorem xstep_val {st : XState} (h : XInv st) (op : XOp) (ht : op.Tame st.db.legacy) :
+    (xstep st op).2 = xanswer st.db op := by
+  cases op with
+  | plain op =>
+    simp only [xstep, xanswer]
+    rw [step_history_independent h.base op]
+  | createU u =>
+    simp only [xstep, xanswer]
+    rw [obtainU_val h u ht]
+  | createDict v es =>
+    simp only [xstep, xanswer]
+    cases v with
+    | true => simp only [↓reduceIte]; rw [createDerived_val h es]
+    | false => simp only [Bool.false_eq_true, ↓reduceIte]; rw [obtainDict_val h es]
+  | cmpq op ea eb x y =>
+    simp only [xstep, xanswer]
+    have v1 := obtainDict_val h ea
+    have i1 := obtainDict_inv h ea
+    have d1 := obtainDict_db st ea
+    cases ho : obtainDict st ea with
+    | mk st1 r1 =>
+      rw [ho] at v1 i1 d1
+      simp only at v1 i1 d1
+      rw [← v1]
+      cases r1 with
+      | error e => rfl
+      | ok a =>
+        simp only
+        have v2 := obtainDict_val i1 eb
+        have d2 := obtainDict_db st1 eb
+        cases ho2 : obtainDict st1 eb with
+        | mk st2 r2 =>
+          rw [ho2] at v2 d2
+          simp only at v2 d2
+          rw [d1] at v2
+          rw [← v2]
+          cases r2 with
+          | error e => rfl
+          | ok b => simp only; rw [d2, d1]
+  | reg r =>
+    simp only [xstep, xanswer]
+    cases applyReg st.db r <;> rfl
+
+/-- **the outcome of an operation does not depend on the history**: in any reachable state it is the
+outcome on a database object with empty memo tables over the same registry -/
+theorem xstep_history_independent {st : XState} (h : XInv st) (op : XOp) (ht : op.Tame st.db.legacy) :
+    (xstep st op).2 = (xstep (XState.fresh st.db) op).2 := by
+  rw [xstep_val h op ht, xstep_val (xinv_fresh st.db) op ht]
+  rfl
+
+/-- two sessions over the same registry answer every later history alike, whatever their memo tables hold -/
+theorem xoutputs_history_independent (ops : List XOp) {st st' : XState} (h : XInv st) (h' : XInv st')
+    (hdb : st.db = st'.db) (ht : ∀ op ∈ ops, op.Tame st.db.legacy) :
+    xoutputs st ops = xoutputs st' ops := by
+  induction ops generalizing st st' with
+  | nil => rfl
+  | cons op ops ih =>
+    have ht1 : op.Tame st.db.legacy := ht op (List.mem_cons_self ..)
+    have ht1' : op.Tame st'.db.legacy := hdb ▸ ht1
+    have hd : (xstep st op).1.db = (xstep st' op).1.db := by rw [xstep_db, xstep_db, hdb]
+    have hl : (xstep st op).1.db.legacy = st.db.legacy := by rw [xstep_db, nextDb_legacy]
+    simp only [xoutputs]
+    rw [xstep_val h op ht1, xstep_val h' op ht1', hdb]
+    congr 1
+    exact ih (xstep_inv h op) (xstep_inv h' op) hd
+      (fun o ho => hl ▸ ht o (List.mem_cons_of_mem _ ho))
+
+/-- a step that fails leaves the registry as it was (a rejected registration included) -/
+theorem xstep_error_db {st : XState} {op : XOp} {e : ErrKind} (hf : (xstep st op).2 = .error e) :
+    (xstep st op).1.db = st.db := by
+  rw [xstep_db]
+  cases op with
+  | reg r =>
+    simp only [xstep] at hf
+    simp only [nextDb]
+    cases hr : applyReg st.db r with
+    | ok db' => rw [hr] at hf; cases hf
+    | error e' => rfl
+  | _ => rfl
+
+/-- **after a failure — a rejected registration included — all later operations, registrations among them,
+behave as if it had not happened** -/
+theorem failed_xstep_invisible {st : XState} (h : XInv st) (op : XOp) {e : ErrKind}
+    (hf : (xstep st op).2 = .error e) (later : List XOp) (ht : ∀ o ∈ later, o.Tame st.db.legacy) :
+    xoutputs (xstep st op).1 later = xoutputs st later :=
+  xoutputs_history_independent later (xstep_inv h op) h (xstep_error_db hf)
+    (fun o ho => (xstep_error_db hf) ▸ ht o ho)
+
+theorem xrun_append_single (before : List XOp) (op : XOp) (s0 : XState) :
+    xrun s0 (before ++ [op]) = (xstep (xrun s0 before) op).1 := by
+  induction before generalizing s0 with
+  | nil => rfl
+  | cons b bs ih => simp only [List.cons_append, xrun]; exact ih _
+
+/-- … from the very beginning of any history of the extended session -/
+theorem failed_xstep_invisible_in_history (db : Db) (before : List XOp) (op : XOp) {e : ErrKind}
+    (hf : (xstep (xrun (XState.fresh db) before) op).2 = .error e) (later : List XOp)
+    (ht : ∀ o ∈ later, o.Tame (xrun (XState.fresh db) before).db.legacy) :
+    xoutputs (xrun (XState.fresh db) (before ++ [op])) later
+      = xoutputs (xrun (XState.fresh db) before) later := by
+  rw [xrun_append_single]
+  exact failed_xstep_invisible (xrun_inv before (xinv_fresh db)) op hf later ht
+
+/-- **after a successful registration (`AddCategory`, also with `override=True`; `AddUnit`) every later
+operation answers as on a fresh session over the NEW registry**: nothing that was memoised before the
+registration — verdicts, simple, alias and derived entries of the quantity cache — is visible after it -/
+theorem reregistration_answers_as_fresh (db : Db) (before : List XOp) (r : RegOp) {db' : Db}
+    (hr : applyReg (xrun (XState.fresh db) before).db r = .ok db') (later : List XOp) :
+    xoutputs (xrun (XState.fresh db) (before ++ [.reg r])) later = xoutputs (XState.fresh db') later := by
+  rw [xrun_append_single]
+  simp only [xstep, hr]
+
+/-- … and in terms of answers: the i-th later answer is a function of the registry reached, not of
+anything created before the registration -/
+theorem reregistration_first_answer (db : Db) (before : List XOp) (r : RegOp) {db' : Db}
+    (hr : applyReg (xrun (XState.fresh db) before).db r = .ok db') (op : XOp) (ht : op.Tame db'.legacy) :
+    (xstep (xrun (XState.fresh db) (before ++ [.reg r])) op).2 = xanswer db' op := by
+  rw [xrun_append_single]
+  simp only [xstep, hr]
+  exact xstep_val (xinv_fresh db') op ht
+
+/-- a category that moved to another quantity type no longer accepts the units of the old one: creation
+through `ObtainQuantity(dict)` (also the list form and unpickling) of an entry whose unit is not of the
+category's CURRENT quantity type raises, whatever the session has created before -/
+theorem obtainDict_rejects_foreign_unit {st : XState} (h : XInv st) {es : List Ent} {e : ErrKind}
+    (hsc : simpleCase es = none) (hv : validateEntries st.db es = .error e) :
+    (obtainDict st es).2 = .error e := by
+  rw [obtainDict_val h es]
+  unfold obtainDictPure newDerivedChecked
+  rw [hsc, hv]
+
 /-! ### non-vacuity on the shipped table -/
 
 end Barril.Fail
